@@ -296,13 +296,18 @@ def rpcBeh (s : Stanza) : Beh :=
   else if s.type = .error && (named s .error).isSome && q then .swallow
   else .pass
 
-/-- who is connected to `QXmppTransferManager::fileReceived`: nobody, a slot that accepts the offered job at once
-(`job->accept(device)`), a slot that declines it (`job->abort()`) -/
-inductive Lsn | none | accept | decline
+/-- who is connected to `QXmppTransferManager::fileReceived` and what the application decides (in the slot or
+later in the same event turn): nobody; `job->accept(device)` with a writable device; `job->accept(device)` with a
+device that is not writable (never opened / read-only) — `_q_jobStateChanged` takes its refusal branch;
+`job->abort()` -/
+inductive Lsn | none | accept | acceptRO | decline
   deriving DecidableEq, Repr
 
-/-- the incoming in-band transfer job from `From.other`: none, accepted and waiting for `<open/>` (StartState),
-opened (TransferState, expecting sequence number 0) -/
+/-- the incoming in-band transfer job from `From.other`: none; `start` = accepted and waiting for `<open/>`
+(StartState) — also the behaviour of a job that has FINISHED after its device failed to store a block (it stays in the
+manager's list: `<open/>` and `<close/>` still find it, `<data/>` no longer does); `opened` = TransferState, expecting
+sequence number 0, whatever the receiving device does with the block (a failed or short write terminates the job
+inside `writeData`, the block is acknowledged all the same) -/
 inductive Job | none | start | opened
   deriving DecidableEq, Repr
 
@@ -312,6 +317,7 @@ def siSetKind (l : Lsn) (s : Stanza) : RKind :=
   else match l with
     | .none => .error .cancel .forbidden                       -- nobody listens to fileReceived
     | .accept => if namedFlag2 s .si then .result else .error .cancel .badRequest
+    | .acceptRO => if namedFlag2 s .si then .error .cancel .forbidden else .error .cancel .badRequest
     | .decline => if namedFlag2 s .si then .error .cancel .forbidden else .error .cancel .badRequest
 
 /-- ibbCloseIqReceived / ibbDataIqReceived / ibbOpenIqReceived: which single reply an IBB element gets.
@@ -364,7 +370,8 @@ def passBeh (_ : Stanza) : Beh := .pass
 inductive Mgr
   | archive | blocking | blockingSub | bookmark | carbon | carbonV2 | discovery | entityTime | mam
   | muc | mucRoom | pubsub | registration | roster | rpc | uploadRequest | vcard | version
-  | transfer | transferAccept | transferDecline | transferJob | transferJobOpen
+  | transfer | transferAccept | transferAcceptRO | transferDecline | transferJob | transferJobOpen
+  | transferJobOpenFail | transferJobOpenShort | transferJobFailed
   -- no handleStanza override (QXmppClientExtension::handleStanza returns false)
   | accountMigration | attention | callInvite | externalService | httpUpload | jmi | messageReceipt
   | mix | moved | userLocation | userTune | atm | fileSharing
@@ -400,6 +407,10 @@ def rowOf : Mgr → Row
   | .transferDecline => ⟨.transferDecline, false, transferBeh .decline .none⟩
   | .transferJob => ⟨.transferJob, false, transferBeh .accept .start⟩
   | .transferJobOpen => ⟨.transferJobOpen, false, transferBeh .accept .opened⟩
+  | .transferAcceptRO => ⟨.transferAcceptRO, false, transferBeh .acceptRO .none⟩
+  | .transferJobOpenFail => ⟨.transferJobOpenFail, false, transferBeh .accept .opened⟩    -- device write returns -1
+  | .transferJobOpenShort => ⟨.transferJobOpenShort, false, transferBeh .accept .opened⟩   -- device takes part of a block
+  | .transferJobFailed => ⟨.transferJobFailed, false, transferBeh .accept .start⟩          -- finished after a failed write
   | .uploadRequest => ⟨.uploadRequest, false, uploadRequestBeh⟩
   | .vcard => ⟨.vcard, false, vcardBeh⟩
   | .version => ⟨.version, false, versionBeh⟩
@@ -523,8 +534,8 @@ def Row.good (r : Row) (s : Stanza) : Bool := (r.run s).goodFor s
 
 def allMgrs : List Mgr :=
   [.archive, .blocking, .blockingSub, .bookmark, .carbon, .carbonV2, .discovery, .entityTime, .mam,
-   .muc, .mucRoom, .pubsub, .registration, .roster, .rpc, .transfer, .transferAccept, .transferDecline,
-   .transferJob, .transferJobOpen, .uploadRequest, .vcard, .version,
+   .muc, .mucRoom, .pubsub, .registration, .roster, .rpc, .transfer, .transferAccept, .transferAcceptRO, .transferDecline,
+   .transferJob, .transferJobOpen, .transferJobOpenFail, .transferJobOpenShort, .transferJobFailed, .uploadRequest, .vcard, .version,
    .accountMigration, .attention, .callInvite, .externalService, .httpUpload, .jmi, .messageReceipt,
    .mix, .moved, .userLocation, .userTune, .atm, .fileSharing]
 
